@@ -562,8 +562,11 @@ impl MonitorSet {
                 let first_line = first_line.split(", raft_id").next().unwrap_or(first_line);
                 let mut head: String = first_line.chars().take(70).collect();
                 if head.starts_with("assertion") || head.starts_with("called `") || head.starts_with("attempt to") || head.starts_with("index out of") {
+                    // these messages do not identify the site: add the file and the source text at the
+                    // panic location, squeezed to one token (stable when lines move)
                     let base = loc.rsplit('/').next().unwrap_or(loc);
-                    head = format!("{} @ {}", head, base);
+                    let file_base = base.split(':').next().unwrap_or(base);
+                    head = format!("{} @ {} {}", head, file_base, source_token(loc));
                 }
                 self.fail(&format!("panic:{}", head), format!("node {} (role {:?}, term {}) panicked in {} at {}: {}", pre.snap.id, pre.snap.role, pre.snap.term, call_brief(c), loc, flat));
             }
@@ -613,6 +616,38 @@ pub fn describe(sim: &Sim) -> Vec<String> {
     }
     out.push(format!("network: {} messages in flight", sim.net.len()));
     out
+}
+
+/// The source text at `file:line` squeezed into one identifier-like token ("?" if unreadable).
+pub fn source_token(loc: &str) -> String {
+    let mut it = loc.rsplitn(2, ':');
+    let line: usize = it.next().and_then(|x| x.parse().ok()).unwrap_or(0);
+    let file = it.next().unwrap_or("");
+    let text = match std::fs::read_to_string(file) {
+        Ok(t) => t,
+        Err(_) => return "?".to_string(),
+    };
+    let lines: Vec<&str> = text.lines().collect();
+    if line == 0 || line > lines.len() {
+        return "?".to_string();
+    }
+    // a multi-line expression: the panic location is its first line; take up to three lines
+    let hi = (line + 2).min(lines.len());
+    let joined = lines[line - 1..hi].join(" ");
+    let stmt = joined.split(';').next().unwrap_or("");
+    let mut out = String::new();
+    let mut last_us = true;
+    for ch in stmt.chars() {
+        if ch.is_ascii_alphanumeric() {
+            out.push(ch);
+            last_us = false;
+        } else if !last_us {
+            out.push('_');
+            last_us = true;
+        }
+    }
+    let out = out.trim_matches('_').to_string();
+    out.chars().take(60).collect()
 }
 
 pub fn call_brief(c: &Call) -> String {
